@@ -319,7 +319,96 @@ def cmp_lattice_at(c, r, out):
     return close(r["values"], [m, m], 1e-6)
 
 
+# ------------------------------------------------------------------ stream: Cube.transform / Grid.cube()
+def gen_cube(rng: random.Random, tier: str):
+    CAX = ["cube", "cube_corners", "world", "grid"]
+    for _ in range(_n(tier, 10, 250)):
+        d = rng.choice([2, 3])
+        g = gen.derive(rng, gen.grid_spec(rng, d, min_size=2))
+        g2 = gen.grid_spec(rng, d, min_size=2)
+        route = rng.choice(["grid.cube", "from_grid_ac", "from_grid_nac", "explicit"])
+        for a, b in itertools.product(CAX, CAX):
+            for vectors in (False, True):
+                yield {"grid": g, "grid2": g2, "route": route, "axes": a, "to_axes": b, "vectors": vectors,
+                       "other": rng.random() < 0.35}
+
+
+def _cube_of(spec, route):
+    from deepali.core.cube import Cube
+
+    g = gen.make_grid(spec)
+    if route == "grid.cube":
+        return g.cube(), g
+    if route == "from_grid_ac":
+        return Cube.from_grid(g, align_corners=True), g
+    if route == "from_grid_nac":
+        return Cube.from_grid(g, align_corners=False), g
+    return Cube(extent=g.extent(), center=g.center(), direction=g.direction()), g
+
+
+def _cube_tokens(c):
+    return " ".join([proto.vec(proto.flat(c.extent())), proto.vec(proto.flat(c.center())), proto.vec(proto.flat(c.direction()))])
+
+
+def impl_cube(c):
+    cube, g = _cube_of(c["grid"], c["route"])
+    other = _cube_of(c["grid2"], "grid.cube")[0] if c["other"] else None
+    m = cube.transform(Axes(c["axes"]), Axes(c["to_axes"]), to_cube=other, vectors=c["vectors"])
+    return {"shape": list(m.shape), "values": proto.flat(m)}
+
+
+def line_cube(c):
+    cube, g = _cube_of(c["grid"], c["route"])
+    d = g.ndim
+    tail = "0"
+    if c["other"]:
+        tail = "1 " + _cube_tokens(_cube_of(c["grid2"], "grid.cube")[0])
+    return f"cube.transform {d} {_cube_tokens(cube)} {c['axes']} {c['to_axes']} {1 if c['vectors'] else 0} {tail}"
+
+
+def cmp_cube(c, r, out):
+    if out == "err:value":
+        return None if isinstance(r, str) and r.startswith("err:value") else f"model rejects (ValueError), impl gave {str(r)[:80]}"
+    if isinstance(r, str):
+        return f"impl raised {r}, model gave {out[:60]}"
+    cc = dict(c)
+    cc["to_grid"] = c["grid2"] if c["other"] else None
+    return cmp_transform(cc, r, out)
+
+
+def gen_cube_of_grid(rng: random.Random, tier: str):
+    for _ in range(_n(tier, 60, 1500)):
+        d = rng.choice([2, 3])
+        yield {"grid": gen.derive(rng, gen.grid_spec(rng, d, min_size=1)), "ac": rng.choice([-1, 0, 1])}
+
+
+def impl_cube_of_grid(c):
+    from deepali.core.cube import Cube
+
+    g = gen.make_grid(c["grid"])
+    cube = g.cube() if c["ac"] < 0 else Cube.from_grid(g, align_corners=bool(c["ac"]))
+    return proto.flat(cube.extent()) + proto.flat(cube.center()) + proto.flat(cube.direction())
+
+
+def line_cube_of_grid(c):
+    g = gen.make_grid(c["grid"])
+    return f"cube.of_grid {g.ndim} {proto.grid(g)} {c['ac']}"
+
+
+def cmp_cube_of_grid(c, r, out):
+    if isinstance(r, str):
+        return f"impl raised {r}"
+    return close(r, proto.parse_vec(out), RTOL32, _scale(c["grid"]))
+
+
 STREAMS = [
+    Stream("cube.transform", gen_cube, impl_cube, line_cube, cmp_cube,
+           nontrivial=lambda c: gen.grid_nontrivial(c["grid"]),
+           doc="Cube.transform for all 4x4 axes pairs (incl. the rejected ones) x vectors flag x {same cube, other cube}; cubes "
+               "from Grid.cube(), Cube.from_grid(align_corners) and explicit attributes"),
+    Stream("cube.of_grid", gen_cube_of_grid, impl_cube_of_grid, line_cube_of_grid, cmp_cube_of_grid,
+           nontrivial=lambda c: gen.grid_nontrivial(c["grid"]),
+           doc="Grid.cube() / Cube.from_grid: extent, center, direction"),
     Stream("transform", gen_transform, impl_transform, line_transform, cmp_transform,
            nontrivial=lambda c: gen.grid_nontrivial(c["grid"]),
            doc="Grid.transform matrices for all 16 axes pairs x vectors flag x {same grid, second grid}"),
@@ -461,6 +550,18 @@ def check_coords(c):
         if (out - img).abs().max() > 1e-6:
             return ("C01:coords:sample-identity", f"grid_sample at coords(align_corners={ac}) changes the image by "
                     f"{float((out - img).abs().max()):.3e}")
+    # the grid's Cube defines the same normalised coordinates (cube.py)
+    if min(g.size()) >= 2:
+        from deepali.core.cube import Cube
+
+        cube = Cube.from_grid(g, align_corners=ac)
+        wc = cube.cube_to_world(co)
+        wg = g.cube_to_world(co, decimals=None, align_corners=ac)
+        if (wc - wg).abs().max() > 2e-4 * _scale(c["grid"]):
+            return ("C01:cube:of-grid", f"Cube.from_grid(g, align_corners={ac}).cube_to_world differs from the grid's map")
+        back = cube.world_to_cube(wc)
+        if (back - co).abs().max() > 1e-4:
+            return ("C01:cube:roundtrip", "Cube world_to_cube(cube_to_world(x)) != x")
     # points(): world positions of the samples
     pw = g.points(Axes.WORLD, dtype=torch.float64)
     want = g.transform_points(idx, Axes.GRID, Axes.WORLD, decimals=None)
